@@ -310,3 +310,9 @@ M('c01-finder-kept-when-compile-false', 'C01', 'R10', 'falcon/routing/compiled.p
 """, """        elif not self._roots:
             self._find = self._compile_and_find
 """)
+
+M('c01-converter-bounds-truthiness-fastpath', 'C01', 'R11', 'falcon/routing/converters.py',
+  "    if converter._min is not None and value < converter._min:\n        return None\n",
+  "    if not (converter._min or converter._max):\n        return value\n    if converter._min is not None and value < converter._min:\n        return None\n")
+# negative control (verified by hand, behaviour-preserving because num_digits < 1 is rejected by the constructor):
+#   `if self._num_digits and len(value) != self._num_digits:` keeps R11 silent
